@@ -9,6 +9,7 @@ import SF.Gen.Consts
 import SF.Gen.Adapters
 import SF.Gen.ErrFlow
 import SF.Gen.Globals
+import SF.Gen.Alloc
 import SF.Event
 import SF.Cbor.Defs
 import SF.Ubjson.Defs
@@ -97,5 +98,15 @@ theorem errFlow : Gen.ErrFlow.facts = ["gotype/unfold.go:Reset:SetTarget", "ubjs
 
 /-- C19 tie: no function outside `init` stores to a package-level variable -/
 theorem globals : Gen.Globals.facts = [] := by decide
+
+/-- C14 (allocation clause): in the unfolder (gotype/unfold*.go) no slice or map is ever
+allocated with a size taken from the event stream: every `make` / `reflect.MakeSlice` /
+`reflect.MakeMapWithSize` there has a constant size or one that went through
+`arrPreallocLen` (which `SF.Props.C14.prealloc_bounded` bounds by 1024).  SSA facts. -/
+theorem unfoldAllocSites :
+    SF.Gen.Alloc.unfoldFacts.all
+      (fun f => (f.2.2.1 == "const" || f.2.2.1 == "arrPreallocLen") &&
+                (f.2.2.2 == "const" || f.2.2.2 == "arrPreallocLen" || f.2.2.2 == "none")) = true := by
+  decide
 
 end SF.GenCheck
